@@ -311,7 +311,7 @@ class Unit:
         return None
 
 
-WIDE_SRC = ["server/lib/src", "proto/src", "libs/crypto/src", "libs/scim_proto/src"]
+WIDE_SRC = ["server/lib/src", "proto/src", "libs/crypto/src", "libs/scim_proto/src", "unix_integration/resolver_common/src", "unix_integration/common/src"]
 
 
 def supply_consts(unit, res):
@@ -335,8 +335,12 @@ def supply_consts(unit, res):
         it = cands[0]
         ty = "".join(it.get("ty", "").split())
         lit = ix.text(it["file"], it["expr"][0], it["expr"][1]).strip()
-        if ty not in ("u8", "u16", "u32", "u64", "u128", "usize", "i8", "i16", "i32", "i64", "isize", "bool") or not re.fullmatch(r"[0-9][0-9A-Za-z_]*|true|false", lit):
+        is_num = ty in ("u8", "u16", "u32", "u64", "u128", "usize", "i8", "i16", "i32", "i64", "isize", "bool") and re.fullmatch(r"[0-9][0-9A-Za-z_]*|true|false", lit)
+        is_str = ty in ("&str", "&'staticstr") and re.fullmatch(r'"[^"\\\n]*"', lit)
+        if not (is_num or is_str):
             return None
+        if is_str:
+            ty = "&'static str"
         add.append(f"pub const {n}: {ty} = {lit};  // D7: {os.path.relpath(it['file'], REPO)}")
         unit.weaver.records.append({"path": n, "kind": "const-literal", "file": os.path.relpath(it["file"], REPO), "span": it["span"],
                                     "sha256": sha(lit), "rules_fired": {"D7": 1}, "diff_lines": 0, "diff": [], "literal": lit})
